@@ -95,11 +95,13 @@ def mask_cases(chk):
     rng = random.Random(chk.seed)
     n1 = 4 if chk.quick else 6
     cases = []
-    fams = ["full12", "psk12", "clientauth12", "resume12", "frag12", "cid12", "hrr13", "nohrr13", "frag13"]
+    fams = ["full12", "psk12", "clientauth12", "resume12", "frag12", "cid12", "hrr13", "nohrr13", "frag13", "dualdual", "dual-12", "dual-13", "12-dual"]
     for fam in fams:
         for d in (0, 1):
             masks = list(itertools.product(range(4), repeat=n1))
             if not chk.quick and fam in ("psk12", "cid12", "frag13"):
+                masks = rng.sample(masks, len(masks) // 4)
+            if fam in scen.VDUAL:
                 masks = rng.sample(masks, len(masks) // 4)
             if chk.quick and fam in ("cid12", "frag13", "clientauth12"):
                 masks = rng.sample(masks, len(masks) // 2)
